@@ -164,6 +164,7 @@ def run_engine_k(pid, tier, seed, out, ev):
             handle_failure(pid, n, h, r, what, kf, out, scratch, tdir, logdir, entry)
         else:
             out.inconclusive.append("%s: %s" % (n, r.reason))
+    confirm_pending(pid, out, scratch, tdir, logdir)
     ev["k_results"] = kres
     ev["k_rewrites"] = rewrites
 
@@ -175,14 +176,33 @@ def handle_failure(pid, n, h, r, what, kf, out, scratch, tdir, logdir, entry):
             out.known.append("KNOWN-FINDING: property=%s %s [%s] %s" % (pid, k["key"], n, k["what"]))
             entry["known_finding"] = k["key"]
             return
-    # not a known finding: confirm by native replay
+    # not a known finding: to be confirmed by native replay (done after all harnesses, in parallel)
+    out.pending = getattr(out, "pending", [])
+    out.pending.append((n, h, what, entry))
+
+
+def confirm_pending(pid, out, scratch, tdir, logdir, max_confirm=3):
+    """native replay of the first `max_confirm` failing harnesses (cheapest first); the others are listed in the
+    evidence as failing-but-not-replayed and do not produce VIOLATION lines of their own"""
+    pend = getattr(out, "pending", [])
+    if not pend:
+        return
     from . import replay
-    ok, path, note = replay.confirm(pid, n, h, scratch, tdir, logdir)
-    entry["replay"] = {"confirmed": ok, "path": path, "note": note}
-    if ok:
-        out.violations.append(("%s: %s" % (n, what), path))
-    else:
-        out.inconclusive.append("%s: counterexample did not reproduce natively (%s) -- encoding problem, not reported as violation" % (n, note))
+    from concurrent.futures import ThreadPoolExecutor
+    pend.sort(key=lambda t: t[3].get("wall_s", 0))
+    todo, rest = pend[:max_confirm], pend[max_confirm:]
+    with ThreadPoolExecutor(max_workers=max_confirm) as ex:
+        futs = [(t, ex.submit(replay.confirm, pid, t[0], t[1], scratch, tdir, logdir, "native%d" % i)) for i, t in enumerate(todo)]
+        for (n, h, what, entry), f in futs:
+            ok, path, note = f.result()
+            entry["replay"] = {"confirmed": ok, "path": path, "note": note}
+            if ok:
+                out.violations.append(("%s: %s" % (n, what), path))
+            else:
+                out.inconclusive.append("%s: counterexample did not reproduce natively (%s) -- encoding problem, not reported as violation" % (n, note))
+    for n, h, what, entry in rest:
+        entry["replay"] = {"confirmed": None, "note": "failing, not replayed (replay budget: %d per run)" % max_confirm}
+        out.notes.append("also failing (not replayed): %s: %s" % (n, what[:160]))
 
 
 def write_evidence(pid, tier, seed, ev, out, wall):
